@@ -184,7 +184,7 @@ func c13Harness(cfg *Cfg) func(x *mc.Exec) {
 	zl = append(zl, container{name: "zlib-dict-needed-but-missing", kind: RK{Kind: "zlib"}, bytes: zlibStream(dictText, 6, dict20)})
 	// a dictionary longer than the 32 KiB window: only its last 32 KiB count. The payload copies from the end of the
 	// dictionary, from just inside the window (32000 back) and from the part that is out of reach.
-	d40 := dict40k()
+	d40 := pieces.Rand(40000, cfg.Seed+40) // incompressible: the stream is short only if it copies from the dictionary
 	pl := append(append(append(append([]byte{}, d40[37000:39990]...), d40[8000:9000]...), d40[100:700]...), []byte(" and fresh text after the dictionary part")...)
 	zl = append(zl, container{name: "zlib-dict40000", kind: RK{Kind: "zlib", Dict: d40}, bytes: zlibStream(pl, 6, d40), payload: pl})
 	if len(zlibStream(pl, 6, d40))+100 > len(zlibStream(pl, 6, nil)) {
